@@ -850,6 +850,10 @@ private:
 		{
 		case ValueType::String:
 			if (auto& ref = mCurrentKey.GetValueRef<std::string_view>(); mMsgPackReader->ReadValue(ref)) {
+				// Keep own copy of the key: the view returned by a stream reader is valid only until the next read,
+				// but the key is needed later for `GetPath()` (e.g. path of a nested object in the validation errors)
+				mKeyBuffer.assign(ref.data(), ref.size());
+				ref = mKeyBuffer;
 				callback(ref);
 			}
 			break;
@@ -927,6 +931,7 @@ private:
 	const size_t mSize;
 	size_t mIndex = 0;
 	MsgPackVariableKey mCurrentKey;
+	std::string mKeyBuffer;
 };
 
 
